@@ -66,7 +66,8 @@ def generate(repo):
              "_X5ix_PYCCOLO_TRACING_ENABLED": "id_te", "_X5ix_PYCCOLO_FUNCTION_TRACING_ENABLED": "id_fte", "ret": "id_ret",
              "guards_by_handler_spec_id": "id_guards_kw", "x": "id_x", "y": "id_y", "guard": "id_guard_kw", "slice": "id_slice",
              "BaseException": "id_BaseException", "NameError": "id_NameError", "_X5ix_name_error": "id_name_error",
-             "startswith": "id_startswith", "name": "id_name", "attr_or_subscript": "id_attr_or_subscript", "_X5ix": "id_prefix_str"}
+             "startswith": "id_startswith", "name": "id_name", "attr_or_subscript": "id_attr_or_subscript", "_X5ix": "id_prefix_str",
+             "_X5ix_x": "id_cmp_x", "_X5ix_y": "id_cmp_y"}
     # the reserved names must be the ones the library really uses
     import importlib.util
     eb = {}
